@@ -101,7 +101,7 @@ def execute(trace: dict, keep_log: bool = False) -> Outcome:
     n_in = len(E.input_variables)
     models = [Model({"min": o["min"], "max": o["max"], "lock_range": o["lock_range"], "lock_previous": o["lock_previous"],
                      "default": o["default"], "enabled": o["enabled"]}) for o in sp["outputs"]]
-    sig = [";".join(f"{int(o['lock_previous'])}{int(o['lock_range'])}{o['default'] != 'nan'}{o['defuzzifier']['cls'][:3]}" for o in sp["outputs"])]
+    sig = [";".join(f"{int(o['lock_previous'])}{int(o['lock_range'])}{o['default'] != 'nan'}{(o['defuzzifier'] or {'cls': '---'})['cls'][:3]}" for o in sp["outputs"])]
     changed = False
 
     def set_inputs(engine, rows):
@@ -122,7 +122,7 @@ def execute(trace: dict, keep_log: bool = False) -> Outcome:
             got, want = cv(ov.value), tuple(fx(c) for c in m.cur)
             if got != want:
                 return Violation("engine_value_differs_from_cascade_model", i, opkind=kind, output=j, got=list(got),
-                                 expected=list(want), defuzzifier=sp["outputs"][j]["defuzzifier"]["cls"])
+                                 expected=list(want), defuzzifier=(sp["outputs"][j]["defuzzifier"] or {"cls": "None"})["cls"])
             if fx(ov.previous_value) != fx(m.prev):
                 return Violation("engine_previous_value_differs_from_model", i, opkind=kind, output=j,
                                  got=fx(ov.previous_value), expected=fx(m.prev))
